@@ -32,21 +32,23 @@ var svcSpecs = map[string]svcSpec{
 	"eos":           {"eos", "tcp", 8888, ""},
 	"ethereum":      {"ethereum", "tcp", 8545, ""},
 	"ftp":           {"ftp", "tcp", 21, ""},
-	"http":          {"http", "tcp", 80, ""},
-	"https":         {"https", "tcp", 443, ""},
-	"ipp":           {"ipp", "tcp", 631, ""},
-	"ldap":          {"ldap", "tcp", 389, ""},
-	"memcached":     {"memcached", "tcp", 11211, ""},
-	"memcached-udp": {"memcached", "udp", 11211, ""},
-	"ntp":           {"ntp", "udp", 123, ""},
-	"redis":         {"redis", "tcp", 6379, ""},
-	"smtp":          {"smtp", "tcp", 25, ""},
-	"snmp":          {"snmp", "udp", 161, ""},
-	"ssh-auth":      {"ssh-auth", "tcp", 22, ""},
-	"ssh-simulator": {"ssh-simulator", "tcp", 2222, ""},
-	"telnet":        {"telnet", "tcp", 23, ""},
-	"tftp":          {"tftp", "udp", 69, ""},
-	"vnc":           {"vnc", "tcp", 5900, ""},
+	// the real FTP service with its credential checker built over a harness-chosen table (hook VerifAuth)
+	"verif-ftp-auth": {"verif-ftp-auth", "tcp", 2121, ""},
+	"http":           {"http", "tcp", 80, ""},
+	"https":          {"https", "tcp", 443, ""},
+	"ipp":            {"ipp", "tcp", 631, ""},
+	"ldap":           {"ldap", "tcp", 389, ""},
+	"memcached":      {"memcached", "tcp", 11211, ""},
+	"memcached-udp":  {"memcached", "udp", 11211, ""},
+	"ntp":            {"ntp", "udp", 123, ""},
+	"redis":          {"redis", "tcp", 6379, ""},
+	"smtp":           {"smtp", "tcp", 25, ""},
+	"snmp":           {"snmp", "udp", 161, ""},
+	"ssh-auth":       {"ssh-auth", "tcp", 22, ""},
+	"ssh-simulator":  {"ssh-simulator", "tcp", 2222, ""},
+	"telnet":         {"telnet", "tcp", 23, ""},
+	"tftp":           {"tftp", "udp", 69, ""},
+	"vnc":            {"vnc", "tcp", 5900, ""},
 }
 
 const serverIP = "10.0.0.1"
@@ -56,7 +58,7 @@ func svcToml(names ...string) string {
 	seen := map[string]bool{}
 	for _, n := range names {
 		sp := svcSpecs[n]
-		if sp.name == "ftp" && sp.extra == "" {
+		if (sp.name == "ftp" || sp.name == "verif-ftp-auth") && sp.extra == "" {
 			sp.extra = fmt.Sprintf("fs_base=%q", lab.ScratchDir()+"/ftpbase")
 		}
 		if !seen[sp.name] {
